@@ -28,7 +28,7 @@ FLOORS = {
               'kind:number-beyond': 60, 'kind:number-below': 60, 'kind:text': 20, 'kind:logical': 10,
               'kind:error': 10, 'kind:number-to-text': 30, 'kind:text-to-number': 10, 'not_implemented_cases': 30,
               'exception_cases': 30, 'other_reported_cells_checked': 100, 'tol:None': 100, 'tol:0.001': 100,
-              'outputs:chosen': 100, 'outputs:all': 100, 'outputs:sheet': 30, 'unevaluable_cell_below_chosen_outputs': 30, 'unevaluable_cell_below_the_formulas_of_another_sheet': 10, 'prelude:noop-write': 40, 'prelude:read-input': 40, 'prelude:list-formula-cells': 40, 'real_book_validations': 25,
+              'outputs:chosen': 100, 'outputs:all': 100, 'outputs:sheet': 30, 'big_workbook_validations': 9, 'second_validate_calcs_on_the_same_compiler': 20, 'validate_calcs_asked_to_raise_first': 50, 'unevaluable_cell_below_chosen_outputs': 30, 'unevaluable_cell_below_the_formulas_of_another_sheet': 10, 'prelude:noop-write': 40, 'prelude:read-input': 40, 'prelude:list-formula-cells': 40, 'real_book_validations': 25,
               'workbooks_with_iterative_calculation_on': 30, 'pristine_process_workbooks': 16, 'two_unevaluable_cells_cases': 30},
     'thorough': {'validate_calls': 12000, 'alterations': 8000, 'kind:logical': 300, 'kind:error': 300,
                  'not_implemented_cases': 600, 'exception_cases': 600},
@@ -191,6 +191,15 @@ def one_validate(ctx, spec, meta, stored, outputs, tol, altered, kind, new_value
                       f'stored result of {altered} changed from {truth!r} to {new_value!r} (tolerance {tol}, outputs '
                       f'{outputs}); report lists only {list(mism)}', case)
         return
+    if (spec.get('calc') or {}).get('iterate') and how == 'none':
+        # a workbook saved with iterative calculation on is compared with its stored results on every run
+        again = quiet(comp.validate_calcs, **kw).get('mismatch', {})
+        ctx.count('second_validate_calcs_on_the_same_compiler')
+        if altered not in again:
+            ctx.violation(f'altered-cell-not-reported/second-run/{kind}',
+                          f'stored result of {altered} changed from {truth!r} to {new_value!r}: the first '
+                          f'validate_calcs({kw}) names it, a second one on the same compiler lists only {list(again)}', case)
+            return
     m = mism[altered]
     if not wb.same(m.original, new_value) or not wb.same(m.calced, truth, rel=1e-6):
         ctx.violation(f'mismatch-entry-wrong-values/{kind}',
@@ -227,6 +236,16 @@ def one_unevaluable(ctx, spec, meta, stored, cell, kind, second=None, sheet=None
             ctx.count('unevaluable_cell_below_the_formulas_of_another_sheet')
         if outputs is not None:
             ctx.count('unevaluable_cell_below_chosen_outputs')
+        if (len(cell) + len(kind) + (1 if second else 0)) % 3 == 0:
+            # what a driver does to see the traceback first: the same call asked to raise, then the report
+            kw_ = dict({'sheet': sheet} if sheet is not None else {}, **({'output_addrs': list(outputs)} if outputs else {}))
+            try:
+                quiet(comp.validate_calcs, raise_exceptions=True, **kw_)
+                ctx.count('raise_exceptions_did_not_raise')
+            except Exception as exc:     # noqa
+                if not wb.raised_outside_harness(exc):
+                    raise
+                ctx.count('validate_calcs_asked_to_raise_first')
         report = quiet(comp.validate_calcs, **({'sheet': sheet} if sheet is not None else {}),
                        **({'output_addrs': list(outputs)} if outputs is not None else {}))
     except Exception as exc:
@@ -378,7 +397,53 @@ def directed(ctx):
                           '; '.join(problems) + f'. mismatches {list(mism)}, not evaluable {listed}', case)
 
 
+def big_validate(ctx, rng):
+    """a workbook of the large sizes (vp.wbgen.big) with a sheet Summary whose formulas read the 1000 cell block and the
+    300-600 row table of Sheet1: one stored result of a formula cell inside the block is altered, the outputs are the
+    formulas of Summary (sheet=), chosen outputs, or all"""
+    from pycel import ExcelCompiler
+    spec, meta = wbgen.big(rng)
+    block = [a for a, m in meta['formulas'].items() if m['form'] == 'arith' and a[7:9].isalpha() and
+             a.startswith('Sheet1!') and a[7] in 'AB' and len(a.rsplit('!', 1)[1].rstrip('0123456789')) == 2]
+    agg = [a for a, m in meta['formulas'].items() if a == 'Sheet1!C400'][0]
+    bref = dict(spec['sheets'])['Sheet1'][agg.rsplit('!', 1)[1]][5:-1]
+    n_tab = max(int(a.rsplit('CB', 1)[1]) for a in meta['inputs'] if a.startswith('Sheet1!CB'))
+    summary = {'B1': f'=SUM(Sheet1!{bref})', 'B2': f'=MAX(Sheet1!CB1:CB{n_tab})+Sheet1!D415', 'B3': '=B1+B2'}
+    spec = dict(spec, sheets=spec['sheets'] + [['Summary', summary]])
+    truth = wb.fresh_values(spec)
+    stored = {a: o[1] for a, o in truth.items() if o[0] == 'v' and o[1] is not None and
+              (a in meta['formulas'] or a.startswith('Summary!'))}
+    path = os.path.join(ctx.tmpdir, 'c12big.xlsx')
+    for how in ('sheet', 'outputs', 'all'):
+        cell = rng.choice(sorted(block))
+        new = stored[cell] + 1000
+        wb.write_xlsx(spec, path, dict(stored, **{cell: new}))
+        comp = ExcelCompiler(filename=path)
+        kw = {'sheet': 'Summary'} if how == 'sheet' else {'output_addrs': ['Summary!B3']} if how == 'outputs' else {}
+        case = {'kind': 'big'}
+        ctx.count('big_workbook_validations')
+        ctx.case(('big-validate', how, cell))
+        try:
+            report = quiet(comp.validate_calcs, **kw)
+        except Exception as exc:
+            if not wb.raised_outside_harness(exc):
+                raise
+            ctx.violation('validate_calcs-raises/large-workbook', f'validate_calcs({kw}) raised {wb.describe(exc)}', case)
+            return
+        mism = report.get('mismatch', {})
+        other = {k: str(v)[:200] for k, v in report.items() if k != 'mismatch'}
+        if cell not in mism or other:
+            ctx.violation('altered-cell-not-reported/large-workbook/' + how,
+                          f'stored result of {cell} (a formula inside the block {bref} that Summary!B1 adds up) changed from '
+                          f'{stored[cell]!r} to {new!r}; validate_calcs({kw}) lists only {list(mism)[:6]} {other}', case)
+            return
+
+
 def run(ctx):
+    if ctx.shard % 4 == 1 or not ctx.quick:
+        import random
+        from vp.core import h64
+        big_validate(ctx, random.Random(h64(('c12-big', ctx.seed, ctx.shard))))
     if ctx.shard == 0:
         directed(ctx)
     rng = ctx.rng
@@ -419,6 +484,12 @@ def pristine_stored_results(ctx, books):
 def replay(ctx, case):
     if case.get('kind') == 'directed':
         directed(ctx)
+        return
+    if case.get('kind') == 'big':
+        import random
+        from vp.core import h64
+        for k in range(4):
+            big_validate(ctx, random.Random(h64(('c12-big', ctx.seed, 4 * k + 1))))
         return
     if case.get('kind') == 'real-book':
         realbooks.c12_case(ctx, case['book'], case['case_seed'])
